@@ -23,10 +23,11 @@ EXTRA_DEFS = ("Open Scope N_scope.\n"
 RULE = ("REAL reorgdetector.ReorgDetector (real SQLite file, real Start/Subscribe order) + REAL sync.EVMDriver + REAL sync.EVMDownloader + "
         "recording processor against a scripted forking node. Lock stream (model-vs-code and property): 8 fixed boundary histories (no reorg; "
         "reorg of processed blocks; reorg while blocks sit in the channel; reorg of blocks not yet downloaded; reorg while the node is down; "
-        "A->B->A; fork shorter than what was processed; RPC failures inside the tick) and random histories of 40-130 interleaved events "
+        "A->B->A; fork shorter than what was processed; RPC failures inside the tick; stop between track and process with re-delivery; "
+        "node killed while a reorg is being handed over, i.e. mismatch found and subscriber notified but processor.Reorg not run) and random histories of 40-130 interleaved events "
         "{node moves (growth / fork above the finalized block with events kept, moved, dropped, added; shorter, equal or longer; back to an "
         "earlier fork), one downloader block-tag query, driver takes one/all queued blocks, one detector tick (with failing finalized query or "
-        "failing k-th header query), stop+start on the same DB file}, chunk in {1,2,3,5,100}, channel buffer 0/1/3/100, finalized types "
+        "failing k-th header query), stop+start on the same DB file, kill during the reorg hand-over + start}, chunk in {1,2,3,5,100}, channel buffer 0/1/3/100, finalized types "
         "Finalized and Safe, each followed by a quiescent fully-finalized tail. Free stream (property only): real 1 ms ticker, no gate, world "
         "changes at RPC-call counts. A case is non-trivial when the real processor received at least one Reorg call that dropped a processed "
         "block; distinct = distinct input")
@@ -99,6 +100,8 @@ def sev(e):
         return "SR"
     if op == "m":
         return "SM"
+    if op == "n":
+        return "SN %s %s" % (cbool(e.get("err", False)), n(e.get("errat", 0)))
     if op == "x":   # witness-only schedule (harness/c06 raceTick); the model has no such step: plain tick
         return "ST false 0"
     raise ValueError("unknown op " + op)
@@ -156,7 +159,7 @@ def distribution(outs):
     d = {"kind": {}, "mode": {}, "chunk": {}, "events": 0, "forks_scripted": 0, "restarts_scripted": 0, "polls": 0, "ticks": 0,
          "ticks_with_rpc_failure": 0, "reorg_calls": 0, "reorg_calls_dropping_blocks": 0, "noop_reorg_calls": 0,
          "cases_with_rewind": 0, "cases_with_2plus_rewinds": 0, "cases_with_restart": 0, "cases_restart_and_rewind": 0,
-         "cases_never_rewound": 0, "blocks_processed": 0, "pk_retries": 0, "not_done": 0, "max_versions": 0, "max_head": 0}
+         "cases_never_rewound": 0, "stops_during_reorg_handover_scripted": 0, "kills_inside_reorg_handover": 0, "blocks_processed": 0, "pk_retries": 0, "not_done": 0, "max_versions": 0, "max_head": 0}
     for o in outs:
         i = o["in"]
         for k, v in (("kind", i["kind"]), ("mode", i["mode"]), ("chunk", str(i["chunk"]))):
@@ -165,8 +168,9 @@ def distribution(outs):
         d["events"] += len(sc)
         vs = [i["w0"]["v"]] + [e["v"] for e in sc if e["op"] == "w"]
         d["forks_scripted"] += sum(1 for a, b in zip(vs, vs[1:]) if a != b)
-        nr = sum(1 for e in sc if e["op"] in ("r", "m"))
+        nr = sum(1 for e in sc if e["op"] in ("r", "m", "n"))
         d["restarts_scripted"] += nr
+        d["stops_during_reorg_handover_scripted"] += sum(1 for e in sc if e["op"] == "n")
         d["polls"] += sum(1 for e in sc if e["op"] == "p")
         d["ticks"] += sum(1 for e in sc if e["op"] == "t")
         d["ticks_with_rpc_failure"] += sum(1 for e in sc if e["op"] == "t" and (e.get("err") or e.get("errat")))
@@ -182,6 +186,7 @@ def distribution(outs):
         d["cases_never_rewound"] += 1 if rc == 0 else 0
         d["blocks_processed"] += sum(1 for p in (o.get("ops") or []) if p["kind"] == "pb")
         d["pk_retries"] += o.get("pk_retries", 0)
+        d["kills_inside_reorg_handover"] += o.get("kills", 0)
         d["not_done"] += 0 if o.get("done") else 1
         d["max_versions"] = max(d["max_versions"], len(i["versions"]))
         d["max_head"] = max([d["max_head"], i["w0"]["head"]] + [e["head"] for e in sc if e["op"] == "w"])
